@@ -31,7 +31,9 @@ CONSTANTS Workers,     \* 1..N-1
           LiteralOrd,  \* BOOLEAN  Layer I stream ordinals (the code before 36c2f14: ordinal := cstep at a restart)
           FormulaOrd,  \* BOOLEAN  Layer I (the code between 36c2f14 and fe85e87: ordinal := cstep + jobs in flight);
                        \*          both FALSE: Layer R, the count is part of the restart record (the code since fe85e87)
-          VaryInit     \* BOOLEAN  start from every valid set of loaded paths, not only the canonical one
+          VaryInit,    \* BOOLEAN  start from every valid set of loaded paths, not only the canonical one
+          OverIssue    \* BOOLEAN  Layer I (the code before 7cc4d53): initiate() submits one job per worker whenever a step is
+                       \*          left, also when fewer steps than workers are left; FALSE: never more jobs than steps left
 
 Pins  == 0..(Workers-1)
 Pn    == 0..MaxPn
@@ -165,17 +167,20 @@ Reissue(pin) ==
      /\ locked0' = Tail(locked0)
      /\ Assign(pin, j.ens) /\ TakeOrd(j)
 
+(* initiate(): another initial submission is due *)
+InitGo == started < Workers /\ (IF OverIssue THEN cstep < tsteps ELSE cstep + started < tsteps)
+
 InitPick(pin) ==
-  /\ phase = "init" /\ started = pin /\ pin < Workers /\ cstep < tsteps
+  /\ phase = "init" /\ started = pin /\ InitGo
   /\ IF locked0 # <<>> THEN Reissue(pin) ELSE (Draw(pin) /\ UNCHANGED locked0)
   /\ lockedSeq' = Append(lockedSeq, pin)
   /\ started' = started + 1
   /\ phase' = IF started + 1 = Workers THEN "loop" ELSE "init"
   /\ UNCHANGED <<wt, cstep, tsteps, trajnum, pend, frac, rfile, rows, nrestart, idleSteps, completed, presort>>
 
-(* nothing to do at all: initiate() returns False at once *)
+(* nothing (more) to submit: initiate() returns False before all workers have a job *)
 InitSkip ==
-  /\ phase = "init" /\ started = 0 /\ ~(cstep < tsteps)
+  /\ phase = "init" /\ started < Workers /\ ~InitGo
   /\ phase' = "loop"
   /\ UNCHANGED <<slot, wt, lock, jobs, lockedSeq, locked0, cstep, tsteps, trajnum, started, pend, ordn,
                  engOcc, jobEng, frac, rfile, rows, nrestart, usedOrd, idleSteps, completed, presort>>
@@ -316,9 +321,9 @@ ZeroSwapAtomic ==
 (* C05 *)
 Distinct  == \A a, b \in Ens : a # b => slot[a] # slot[b]
 MinusAtZero == wt[slot[0]][0] > 0 /\ \A e \in Plus : wt[slot[e]][0] = 0
-CanDraw   == ((phase = "init" /\ started < Workers /\ cstep < tsteps /\ locked0 = <<>>) \/ (phase = "loop" /\ pend # None))
+CanDraw   == ((phase = "init" /\ InitGo /\ locked0 = <<>>) \/ (phase = "loop" /\ pend # None))
                => CanDrawIn(slot, lock, wt)
-CanReissue == (phase = "init" /\ started < Workers /\ cstep < tsteps /\ locked0 # <<>>) =>
+CanReissue == (phase = "init" /\ InitGo /\ locked0 # <<>>) =>
                  LET h == Head(locked0) IN
                  /\ \A k \in 1..Len(h[2]) : \E x \in Ens : slot[x] = h[2][k] /\ x \notin lock
                  /\ SeqSet(h[1]) \cap lock = {}
@@ -342,11 +347,14 @@ RestartLoads ==
 Progress == <>(phase = "done")
 
 (* C17 *)
-StepsExact == (phase = "done" /\ nrestart = 0 /\ Steps >= Workers) =>
-                 /\ completed = Steps /\ cstep = Steps /\ rfile.cstep = Steps
+(* whatever the restart points: a finished run has done exactly the requested moves and leaves nothing in flight *)
+StepsExact == (phase = "done" /\ Steps >= Workers) =>
+                 /\ completed = tsteps /\ cstep = tsteps /\ rfile.cstep = tsteps
                  /\ InFlightPins = {} /\ lockedSeq = <<>> /\ rfile.locked = <<>>
 RecordCounts == rfile # NoRec => rfile.cstep <= cstep
-NeverTooMany == cstep <= tsteps /\ Cardinality(InFlightPins) <= Workers
+(* never more jobs in flight than workers, nor than steps left *)
+NeverTooMany == /\ cstep <= tsteps /\ Cardinality(InFlightPins) <= Workers
+                /\ (Steps >= Workers /\ phase \in {"init", "loop", "done"}) => cstep + Cardinality(InFlightPins) <= tsteps
 NoLostJob    == (phase = "loop" /\ pend = None /\ cstep < tsteps) => InFlightPins # {}
 
 (* C07 *)
